@@ -90,16 +90,27 @@ def check(case):
             raise
         return [V("construction_raised", "{!r}".format(e), fam + exc_sig(e), **attrs)], dict(nontrivial=False, labels=labels)
     targets = [t0 + c * (tf - t0) for c in case["cuts"]] + [None]
+    last_scalar = None      # (time, value) of the last scalar query made before the next call
     for tg in targets:
+        if last_scalar is not None and a.sol is not None:
+            # the first query after a continuation repeats, bit for bit, the last query before it: the step that contains
+            # that time has not changed (a lookup memo that survives the insertion of new pieces would answer from another)
+            again = np.asarray(a.sol(np.float64(last_scalar[0])), dtype=np.float64)
+            if not np.array_equal(again, last_scalar[1]):
+                return [V("query_changed_by_continuation", "sol({!r}) was {} before the continuing call and is {} after it (difference {:.3e})".format(
+                    last_scalar[0], last_scalar[1].tolist(), again.tolist(), float(np.max(np.abs(again - last_scalar[1])))), fam, direction="backward" if backward else "forward", **attrs)], dict(nontrivial=False, labels=labels)
+            last_scalar = None
         if len(a) > 2 and a.sol is not None and np.all(np.isfinite(np.asarray(a.y))):
             # queries made between calls (array-shaped ones fill the lookup cache) must not disturb later ones
             tq = np.asarray(a.t, dtype=np.float64)
             mids = 0.5 * (tq[:-1] + tq[1:])
             try:
                 early = np.asarray(a.sol(mids), dtype=np.float64)
-                for i in (0, len(mids) - 1):
-                    if not np.array_equal(early[i], np.asarray(a.sol(np.float64(mids[i])), dtype=np.float64)):
+                for i in (0, len(mids) - 1, (len(mids) - 1) // 2):
+                    sc = np.asarray(a.sol(np.float64(mids[i])), dtype=np.float64)
+                    if not np.array_equal(early[i], sc):
                         return [V("array_vs_scalar", "between two calls sol(array)[{}] differs from sol(scalar) at t={!r}".format(i, float(mids[i])), fam, direction="backward" if backward else "forward", **attrs)], dict(nontrivial=False, labels=labels)
+                    last_scalar = (float(mids[i]), sc.copy())
             except Exception as e:
                 if exc_origin(e)[0] == "harness":
                     raise
